@@ -431,7 +431,7 @@ export async function run(ctx) {
 
   const buckets = new Map(); // digest -> {vector, example}
   const pool = COMMON_POOL();
-  const nProgs = ctx.share(3000, 60000);
+  const nProgs = ctx.share(12000, 60000);
   let sampled = 0;
   for await (const item of corpus(ctx, { label: "C13", count: nProgs, features: {} })) {
     const { prog, parsers } = item;
